@@ -276,6 +276,11 @@ def verify_function(eng, qualname, contract, make_args, max_paths=4000, fork_sli
                     post()
                 except PathEnd:
                     pass
+                except RaiseExc as e:
+                    # a contract clause could not be evaluated: an operation it names raised (e.g. the chain of a text-of-chain
+                    # clause is rejected by the library itself).  The clause does not hold.
+                    res.add(f"{qualname} [{fork_tag(fork)}] ensures", "failed", "clause evaluation raised " + str(e.cls_name), 0.0,
+                            kind="ensures", fork=fork_tag(fork), model=None)
                 except Limitation as lim:
                     if res.limitation is None:
                         res.limitation = str(lim)
